@@ -35,6 +35,21 @@ Definition evpn_wf (e : evpn) : Prop :=
       blen gw = blen ip /\ pl <= 8 * blen ip /\ l < 16777216
   end.
 
+Definition mup_wf (v6 : bool) (m : mup) : Prop :=
+  let w := if v6 then 16 else 4 in
+  match m with
+  | Mup1 rd pl a => blen rd = 8 /\ pl <= 8 * w /\ blen a = w
+  | Mup2 rd a => blen rd = 8 /\ blen a = w
+  | Mup3 rd pl a teid qfi ep src =>
+      blen rd = 8 /\ pl <= 8 * w /\ blen a = w /\ teid < 4294967296 /\ blen ep = w /\
+      match src with Some s => blen s = w | None => True end
+  | Mup4 rd el ep teid =>
+      (* the endpoint length covers the address and the leading octets of the TEID; the rest of the
+         TEID is not transmitted, so it is zero in a representable value *)
+      blen rd = 8 /\ blen ep = w /\ 8 * w <= el /\ el <= 8 * w + 32 /\ teid < 4294967296 /\
+      teid mod 256 ^ (4 - (el - 8 * w + 7) / 8) = 0
+  end.
+
 (* a representable entry of the kind [k] *)
 Definition structured (k : skind) (e : pnlri) : Prop :=
   fst e < 4294967296 /\
@@ -53,6 +68,7 @@ Definition structured (k : skind) (e : pnlri) : Prop :=
   | SRtc, NRtc (RtcExact a rt) => a < 4294967296 /\ blen rt = 8
   | SEvpn, NEvpn e => evpn_wf e
   | SSrp, NSrp d c ep => d < 4294967296 /\ c < 4294967296 /\ (blen ep = 4 \/ blen ep = 16)
+  | SMup v6, NMup m => mup_wf v6 m
   | _, _ => False
   end.
 
@@ -66,6 +82,8 @@ Definition canon_fcomp (c : fcomp) : fcomp :=
 Definition canon_struct (n : nlri) : nlri :=
   match n with
   | NFlow v6 rd comps => NFlow v6 rd (map canon_fcomp comps)
+  | NMup (Mup1 rd pl a) => NMup (Mup1 rd pl (sig_octets pl a))
+  | NMup (Mup3 rd pl a teid qfi ep src) => NMup (Mup3 rd pl (sig_octets pl a) teid qfi ep src)
   | _ => n
   end.
 Definition canon_item (ap : bool) (e : pnlri) : N * nlri := (if ap then fst e else 0, canon_struct (snd e)).
